@@ -1,2 +1,49 @@
-(* C04 - every writer emits every number (theorems added as they are proved) *)
-From BSE Require Import Model.Val Model.WriterPipe.
+(* C04 - every writer emits every number of the basis, unrounded.
+   PARTIAL by design (DESIGN.md).  The writers are modelled up to their layout code: the function-type gate and the
+   normalisation pipeline each writer runs before printing are translated from writers/*.py on every run (Gen/GenWriters.v) and
+   executed by the manipulation model; the numeric table printer (printing.write_matrix) is modelled in full.  Proved here:
+   the pipeline of every writer but veloxchem only re-contracts (function set kept, so no exponent or coefficient can
+   disappear before printing), the gate refuses what a format cannot express, the table printer emits every cell as its own
+   token with all digits.  The layout code between the two is decided by exploration (vlib/props/c04.py): every predicted
+   number must be in the text by exact decimal value. *)
+From BSE Require Import Model.Val Model.Manip Model.Text Model.Matrix Model.WriterPipe Gen.GenWriters.
+From BSE Require Import Proofs.WriterPipeDefs Proofs.MatrixDefs.
+From BSE Require Proofs.WriterPipeSpec Proofs.MatrixSpec.
+
+Theorem wsteps_FS : wsteps_FS_stmt.
+Proof. exact WriterPipeSpec.wsteps_FS. Qed.
+Print Assumptions wsteps_FS.
+
+(* finite, over the translated writer table: veloxchem is the only writer whose pipeline does more than re-contract
+   (it drops redundant general-contraction primitives: optimize_general) *)
+Theorem recontracting_writers : recontracting_writers_stmt.
+Proof. exact WriterPipeSpec.recontracting_writers. Qed.
+Print Assumptions recontracting_writers.
+
+Theorem writer_expected_complete : writer_expected_complete_stmt.
+Proof. exact WriterPipeSpec.writer_expected_complete. Qed.
+Print Assumptions writer_expected_complete.
+
+Theorem gate_rejects : gate_rejects_stmt.
+Proof. exact WriterPipeSpec.gate_rejects. Qed.
+Print Assumptions gate_rejects.
+
+Theorem unknown_format_rejected : unknown_format_rejected_stmt.
+Proof. exact WriterPipeSpec.unknown_format_rejected. Qed.
+Print Assumptions unknown_format_rejected.
+
+(* the table printer: no cell is dropped, merged or shortened *)
+Theorem write_row_tokens : write_row_tokens_stmt.
+Proof. exact MatrixSpec.write_row_tokens. Qed.
+Print Assumptions write_row_tokens.
+
+Theorem floating_is_cell : floating_is_cell_stmt.
+Proof. exact MatrixSpec.floating_is_cell. Qed.
+Print Assumptions floating_is_cell.
+
+Theorem norm_keeps_digits : norm_keeps_digits_stmt.
+Proof. exact MatrixSpec.norm_keeps_digits. Qed.
+Print Assumptions norm_keeps_digits.
+
+Example some_writer_recontracts : exists w, assoc "nwchem" writer_map = Some w /\ forallb recontracting (w_pipeline w) = true /\ w_pipeline w <> [].
+Proof. eexists; split; [vm_compute; reflexivity|]. split; [vm_compute; reflexivity | discriminate]. Qed.
